@@ -28,6 +28,7 @@ pub mod c12b;
 pub mod c13;
 pub mod specbin;
 pub mod scalar;
+pub mod mixed;
 pub mod c03;
 pub mod c04;
 pub mod c05;
